@@ -272,6 +272,8 @@ func c12Churn(c *core.Ctx, r *gen.Rand, k int) {
 		case i%70 == 31:
 			mode = "write-error"
 			rg.conn.FailNext(1)
+		case i%90 == 47 && rg.maxAttempts() > 0 && kind == "Start":
+			mode = "retransmission-write-error"
 		}
 		done := make(chan struct{})
 		if kind == "Do" {
@@ -292,6 +294,10 @@ func c12Churn(c *core.Ctx, r *gen.Rand, k int) {
 				now += int64(100 * time.Second)
 				rg.tickAt(now)
 			}
+		case "retransmission-write-error":
+			rg.conn.FailNext(1)
+			now += int64(100 * time.Second)
+			rg.tickAt(now) // the first retransmission fails: the transaction ends with that error
 		}
 		if !waitFor(t.returned) {
 			c.Violate("call-never-returned", "never-returned:"+kind, map[string]interface{}{"iteration": i, "mode": mode})
@@ -302,6 +308,10 @@ func c12Churn(c *core.Ctx, r *gen.Rand, k int) {
 		inv := t.invocations()
 		bad := ""
 		switch mode {
+		case "retransmission-write-error":
+			if t.RetErr != nil || len(inv) != 1 || inv[0].Class != "write-error" {
+				bad = fmt.Sprintf("the first retransmission failed: Start returned %v, invocations %v", t.RetErr, classesOf(inv))
+			}
 		case "write-error":
 			if t.RetErr == nil || len(inv) != 0 {
 				bad = fmt.Sprintf("write failed: returned %v, invocations %v", t.RetErr, classesOf(inv))
@@ -350,6 +360,14 @@ func c12(c *core.Ctx) {
 		if c.WantSample() {
 			c.Sample(map[string]interface{}{"section": "many-in-flight", "transactions": n, "fallback_handler": i%2 == 0})
 		}
+	})
+	c.Section("simultaneous-start-same-id", 8, func(i int64, _ *gen.Rand) {
+		targetedSimultaneousStartSameID(c, int(c.N(400, 20000)))
+		c.Distinct(uint64(i) | 27<<50)
+	})
+	c.Section("responses-during-retransmitting-tick", 4, func(i int64, _ *gen.Rand) {
+		targetedResponsesDuringRetransmittingTick(c, int(i))
+		c.Distinct(uint64(i) | 28<<50)
 	})
 	c.Section("response-during-close", 4, func(i int64, _ *gen.Rand) {
 		targetedResponseDuringClose(c, int(i))
